@@ -562,7 +562,7 @@ func genC19(g *G) {
 		}
 	}
 	for n := 1; n <= 3; n++ {
-		for np := 1; np <= 2; np++ {
+		for np := 1; np <= 4; np++ {
 			g.Emit("btcsession", g.Pick([]string{"1-4-100", "2-4-7", "retry-1-4"}), itoa(n), itoa(np))
 		}
 	}
@@ -594,14 +594,17 @@ func genC19(g *G) {
 		g.Emit("appboot", itoa64(k), itoa64(conf), itoa64(head), strings.Join(doms, ","))
 	}
 	// the session ids the EVM signing processes run under (several batches per delivery)
-	for _, sp := range []string{"n:p", "n:p;n:p", "n:p;n:p;n:p", "100:p;n:p", "n:e;n:p;41:p;n:p", "40:p;n:p;n:p;0:p;0:p", "n:e"} {
+	for _, sp := range []string{"n:p", "n:p;n:p", "n:p;n:p;n:p", "100:p;n:p", "n:e;n:p;41:p;n:p", "40:p;n:p;n:p;0:p;0:p", "n:e",
+		"n:x;n:p;n:p", "n:p;n:x;n:p", "n:p;n:p;n:x", "n:e;n:x", "n:x"} { // x: this relayer cannot read the proposal's status
 		g.Emit("evmsigsession", "100", "60", "1-2-100-104", sp)
+		g.Emit("evmsession", "100", "60", "1-2-100-104", sp)
+		g.Emit("evmsession2", "100", "60", "1-2-100-104", sp)
 	}
 	for i := 0; i < g.Count(25, 600); i++ {
 		n := 1 + g.Intn(5)
 		xs := []string{}
 		for j := 0; j < n; j++ {
-			xs = append(xs, []string{"n", "0", "40", "41", "100"}[g.Intn(5)]+":"+g.Pick([]string{"p", "p", "p", "e"}))
+			xs = append(xs, []string{"n", "0", "40", "41", "100"}[g.Intn(5)]+":"+g.Pick([]string{"p", "p", "p", "p", "p", "e", "e", "x"}))
 		}
 		g.Emit("evmsigsession", "100", "60", []string{"1-2-100-104", "3-1-5-9", "retry-7"}[g.Intn(3)], joinOr(xs, ";"))
 	}
